@@ -97,6 +97,15 @@ def run_property(pid, tier, seed, replay=None):
                         out = None
                 if out is not None:
                     for fam, detail in P.compare(case, out):
+                        if fam in getattr(P, "SPEC_FAMILIES", ()):
+                            # the model side of this family is proved equal to the property's own
+                            # specification, so a disagreement is a failing input of the property
+                            key = {"class": "differs-from-proved-spec", "family": fam}
+                            kf = match_known(pid, key, known)
+                            if kf is not None:
+                                knowns.append((kf, {"what": detail}))
+                            else:
+                                violations.append(({"what": f"{fam}: {detail}", "key": key, "case_id": case.get("id"), "label": case.get("label")}, case))
                         disagreements.append({"family": fam, "detail": detail, "case": case.get("id"), "label": case.get("label")})
                         if len(disagreements) <= 3:
                             _write(os.path.join(replays, f"{pid}-disagreement-{len(disagreements)}.json"),
